@@ -186,6 +186,11 @@ def _remove_node_and_replace_values(
                     # if new_value is not graph output, we just
                     # update it to use old_value name.
                     new_value.name = graph_output.name
+                    # A graph output must be typed: keep what the removed output declared
+                    if new_value.type is None:
+                        new_value.type = graph_output.type
+                    if new_value.shape is None:
+                        new_value.shape = graph_output.shape
                     graph.outputs[idx] = new_value
 
     # Reconnect the users of the deleted values to use the new values
